@@ -231,6 +231,25 @@ def _split_top_commas(s, ms):
     return parts
 
 
+def _split_fields(s, ms):
+    """Top-level comma split for struct bodies: also tracks <...> (generics; `->` is skipped)."""
+    parts = []
+    d = 0
+    last = 0
+    for k, ch in enumerate(ms):
+        if ch in "([{<":
+            d += 1
+        elif ch in ")]}":
+            d -= 1
+        elif ch == ">" and not (k > 0 and ms[k - 1] == "-"):
+            d -= 1
+        elif ch == "," and d == 0:
+            parts.append(s[last:k])
+            last = k + 1
+    parts.append(s[last:])
+    return parts
+
+
 def norm_macros(text, m):
     edits = []
     for mm in re.finditer(r"\b(format|debug_assert|assert|panic|unreachable|unimplemented|todo)!\s*\(", m):
@@ -579,7 +598,7 @@ def gen_cut(d, strip_paths):
         mbody = m[bo + 1 : len(text) - 1]
         pos = 0
         seen = set()
-        for part in _split_top_commas(body, mbody):
+        for part in _split_fields(body, mbody):
             mpart = mbody[pos : pos + len(part)]
             fm = re.search(r"(?:pub(?:\([a-z ]+\))?\s+)?(\w+)\s*:", mpart)
             if fm:
@@ -596,6 +615,20 @@ def gen_cut(d, strip_paths):
         missing = keepset - seen
         if missing:
             raise ExtractError("lost anchor: struct %s lacks kept field(s) %s" % (name, sorted(missing)))
+    if kind == "struct" and it.header_end is not None:
+        # N11: field visibility -> pub (visibility has no run-time meaning; Verus needs it for specs)
+        bo = it.header_end - it.start
+        body = text[bo + 1 : len(text) - 1]
+        mbody = m[bo + 1 : len(text) - 1]
+        pos = 0
+        for part in _split_fields(body, mbody):
+            mpart = mbody[pos : pos + len(part)]
+            fm = re.search(r"(pub(?:\([a-z ]+\))?\s+)?(\w+)\s*:", mpart)
+            if fm and not any(e.off <= bo + 1 + pos + fm.start() < e.off + len(e.old) for e in edits):
+                vis = fm.group(1) or ""
+                if vis.strip() != "pub":
+                    edits.append(Edit(bo + 1 + pos + fm.start(), vis, "pub ", "norm:N11"))
+            pos += len(part) + 1
     extra = d.opt("extra")
     if extra:
         edits.append(Edit(len(text) - 1, "", extra + "\n", "splice:extra-field"))
